@@ -2,7 +2,7 @@
 //
 //   history  STATE CARRIED BETWEEN CALLS: every ordered pair (a, b) of a boundary set of save/load calls (images
 //            and files that differ in size class, row stride, alpha, channel width, container, success/failure)
-//            is executed as the call history a, b, a in a fresh forked child; thorough: every ordered triple.
+//            is executed as the call history a, b, a in a fresh forked child; thorough: a, b, c for each of 12 observing calls c.
 //            Every step is judged on its own: loads against the picture the file defines, PPM/BMP output by
 //            loading it back, every distinct output file by the Python decoders.
 //   states   NON-INITIAL OBJECT STATES: copy-assign / move-assign / swap between every ordered pair of object
@@ -128,6 +128,7 @@ struct HOp {
   Pic pic;
   bool cut = false;       // the file is a proper prefix: must throw or decode identically
   bool dontcare = false;  // recorded only
+  bool probe = false;     // thorough: one of the calls used as the third (observing) call of a triple
   string family, name;
 };
 
@@ -193,6 +194,12 @@ vector<HOp> history_ops() {
     HOp o; o.kind = 2; o.family = "load-unknown"; o.dontcare = true; o.file = "XY 3 2 255\n123456789012345678"; o.name = "load a file with signature XY";
     ops.push_back(o);
   }
+  for (auto& o : ops)
+    for (const char* nm : {"save(png) of 5x3 no-alpha 8-bit pattern=coord", "save(png) of 4x6 alpha 8-bit pattern=ctl-bytes", "save(bmp) of 3x5 no-alpha 8-bit pattern=max",
+             "save(bmp) of 9x8 alpha 8-bit pattern=coord", "save(ppm) of 7x2 alpha 8-bit pattern=texty", "save(ppm) of 2x2 no-alpha 16-bit pattern=coord", "load P6/ws0 5x3", "load P5/ws1 4x3",
+             "load P7/GRAYSCALE_ALPHA/16-bit 3x2", "load BMP/24-bit/BI_RGB/bottom-up/hdr40 5x3", "load BMP/32-bit/BI_BITFIELDS/RGBA@bytes0123/top-down/hdr124 2x3",
+             "load BMP/32-bit/BI_BITFIELDS/RGBA@bytes0213/bottom-up/hdr108 2x2"})
+      if (o.name == nm) o.probe = true;
   return ops;
 }
 
@@ -327,12 +334,16 @@ VF_SECTION(history, 16, 16, 90) {
   } else {
     for (int a = 0; a < n; a++)
       for (int b = 0; b < n; b++)
-        for (int c = 0; c < n; c++) run_case({a, b, c});
+        for (int c = 0; c < n; c++)
+          if (ops[c].probe) run_case({a, b, c});
   }
+  int nprobe = 0;
+  for (auto& o : ops) nprobe += o.probe;
+  if (nprobe != 12) r.fail("harness:probe-set", [&] { return vf::fmt("%d probe calls found, 12 expected", nprobe); });
   r.counters["distinct_saved_files"] = sink.distinct;
   r.bound = vf::fmt("%d calls (save(Format)/save(FILE*) of 12 images differing in size class, stride, alpha, channel width, MAXVAL x {ppm,bmp,png}; loads of 16 container variants, 4 truncated files, "
                     "1 unknown signature) - %s, each history in a fresh process",
-      n, triples ? "every ordered triple (a, b, c)" : "every ordered pair as the history a, b, a");
+      n, triples ? "every ordered pair (a, b) followed by each of 12 observing calls c (6 saves, 6 loads) as the history a, b, c" : "every ordered pair as the history a, b, a");
 }
 
 // =============================================================================================
@@ -924,6 +935,8 @@ VF_SECTION(apis, 8, 8, 90) {
     probes.push_back({"Image(filename) of a file that does not exist", "", 7});
     probes.push_back({"load a P6 image that starts at offset 5 of the stream", "", 8});
     probes.push_back({"load a BMP image that starts at offset 5 of the stream", "", 9});
+    probes.push_back({"save(Format::GRAYSCALE_PPM) (documented refusal)", "", 10});
+    probes.push_back({"save with a Format value outside the enum", "", 11});
     for (auto& pb : probes) {
       if (!r.take()) continue;
       if (r.wants_desc()) r.desc("don't-care: " + pb.name);
@@ -963,6 +976,9 @@ VF_SECTION(apis, 8, 8, 90) {
               try { Image img(sdir + "/does-not-exist.ppm"); o = "accepted"; } catch (const std::exception&) { o = "throws"; }
               break;
             case 8: load_at("JUNK!" + spec_image({2, 2, false, 8, 2, 0}).save(Image::Format::COLOR_PPM), 5); break;
+            case 10: case 11:
+              try { o = vf::fmt("%zu bytes", spec_image({2, 2, false, 8, 2, 0}).save(pb.kind == 10 ? Image::Format::GRAYSCALE_PPM : (Image::Format)99).size()); } catch (const std::exception&) { o = "throws"; }
+              break;
             default: load_at("JUNK!" + spec_image({3, 2, false, 8, 2, 0}).save(Image::Format::WINDOWS_BITMAP), 5); break;
           }
         } catch (const std::exception&) { o += "throws"; }
@@ -974,6 +990,6 @@ VF_SECTION(apis, 8, 8, 90) {
   r.counters["distinct_saved_files"] = sink.distinct;
   r.bound = vf::fmt("9 images (incl. 16/64-bit, MAXVAL 100, 300 pixels wide) x {ppm,bmp,png} x %d ways to save (every overload; memory, real file in four buffering modes, pipe, stdout, "
                     "stream at a non-zero position, twice into one stream, png_data_url) x {plain, catch handler, destructor during unwinding, errno EINTR/ENOENT} (%s); 9 container variants x 2 dims x "
-                    "3 stream kinds x 5 contexts loaded; 3 raw-data constructor overloads x 9 images x explicit/defaulted max_value; 28 don't-care probes (malformed headers, empty images, embedded images)",
+                    "3 stream kinds x 5 contexts loaded; 3 raw-data constructor overloads x 9 images x explicit/defaulted max_value; 30 don't-care probes (malformed headers, empty images, embedded images, refused formats)",
       NSAVEVIA, r.thorough() ? "full product" : "contexts x the four entry points, every stream kind in the plain context");
 }
